@@ -381,6 +381,7 @@ class Session:
         self.client_kwargs = dict(client_kwargs or {})
         self.client = None
         self.companions = []
+        self.bad_deliveries = []         # receive callback invoked with something that is not a message
         self.reads_in_flight = 0
         self.max_reads_in_flight = 0
         self.read_return_step = -1
@@ -462,6 +463,10 @@ class Session:
                 await asyncio.sleep(0.5)       # an application that does real work when the link comes up
 
         async def on_receive(msg):
+            if msg is None or not hasattr(msg, "PGN"):
+                # the receive callback is for messages: being called with anything else is recorded, not delivered
+                self.bad_deliveries.append((self.loop.time(), repr(msg)[:60]))
+                return
             i = len(self.received)
             self.received.append((self.loop.time(), msg))
             b = self.receive_behaviour(i) if self.receive_behaviour else None
@@ -581,6 +586,7 @@ class Companion:
         self.client_kwargs = dict(client_kwargs or {})
         self.client = None
         self.received = []
+        self.bad_deliveries = []
         self.status_trace = []
         self._loop = session.loop
 
@@ -603,6 +609,9 @@ class Companion:
             self.status_trace.append((loop.time(), state.name))
 
         async def on_receive(msg):
+            if msg is None or not hasattr(msg, "PGN"):
+                self.bad_deliveries.append((loop.time(), repr(msg)[:60]))
+                return
             self.received.append((loop.time(), msg))
         c.set_status_callback(on_status)
         c.set_receive_callback(on_receive)
@@ -771,6 +780,8 @@ def passthrough_diff(kind, msgs, kwargs_factory, reconnect_before=()):
     got, s = client_passthrough(kind, chunks, kwargs_factory(), reconnect_before=rb)
     if s.outcome != "ok":
         return [("session", f"session ended with {s.outcome}: {s.errors[:1]}")]
+    if s.bad_deliveries:
+        return [("not-a-message", f"the receive callback was called {len(s.bad_deliveries)} time(s) with something that is not a message: {s.bad_deliveries[0][1]}")]
     exp, _ = bare_decoder_delivery(kind, chunks, kwargs_factory())
     passthrough_diff.last_delivered = len(got)
     if len(got) != len(exp):
@@ -820,4 +831,5 @@ def dual_client_delivery(kind, stream_a: bytes, stream_b: bytes, piece_a=7, piec
         await a.close()
         await b.close()
     s.outcome = s.run(main)
+    s.bad_deliveries = s.bad_deliveries + comp.bad_deliveries
     return [m for _, m in s.received], [m for _, m in comp.received], s
